@@ -2,6 +2,7 @@ package checks
 
 import (
 	"fmt"
+	"golang.org/x/sys/unix"
 	"os"
 	"path/filepath"
 	"sort"
@@ -77,12 +78,12 @@ const (
 var c27Paths = []string{"a", "d/b"}
 
 // vector layout: ha ia wa hb ib wb fm crlf ign racy
-var c27Dims = []int{len(c27H), len(c27I), len(c27W), len(c27H), len(c27I), len(c27W), 2, 3, 4, 2}
+var c27Dims = []int{len(c27H), len(c27I), len(c27W), len(c27H), len(c27I), len(c27W), 2, 3, 4, 3}
 
 func c27Render(v []int) string {
 	crlf := []string{"false", "input", "true"}[v[7]]
 	ign := []string{"none", "root", "nested", "exclude"}[v[8]]
-	mt := []string{"old", "racy"}[v[9]]
+	mt := []string{"old", "racy", "same-second-other-nanoseconds"}[v[9]]
 	return fmt.Sprintf("a=%c%c%c d/b=%c%c%c fileMode=%v autocrlf=%s ignore=%s mtime=%s",
 		c27H[v[0]], c27I[v[1]], c27W[v[2]], c27H[v[3]], c27I[v[4]], c27W[v[5]], v[6] == 0, crlf, ign, mt)
 }
@@ -106,7 +107,8 @@ func (e *c27Env) build(v []int, root string, viaGit bool) *fw.Git {
 	H := []byte{conv(c27H[v[0]]), conv(c27H[v[3]])}
 	I := []byte{conv(c27I[v[1]]), conv(c27I[v[4]])}
 	W := []byte{conv(c27W[v[2]]), conv(c27W[v[5]])}
-	racy := v[9] == 1
+	racy := v[9] == 1 || v[9] == 2
+	subsec := v[9] == 2 // like racy, but the replaced file lands in the same second with other nanoseconds and the index is newer: not racy, only the sub-second part of the mtime tells
 	cf := hConfig{FileMode: v[6] == 0, AutoCRLF: []string{"", "input", "true"}[v[7]]}
 
 	treeKinds := func(ks []byte) string {
@@ -198,6 +200,12 @@ func (e *c27Env) build(v []int, root string, viaGit bool) *fw.Git {
 				putW(pi, '-')
 			}
 			putW(pi, W[pi])
+			if subsec && W[pi] != '-' && W[pi] != 't' {
+				ts := []unix.Timespec{{Sec: hOldTime, Nsec: 500000000}, {Sec: hOldTime, Nsec: 500000000}}
+				if err := unix.UtimesNanoAt(unix.AT_FDCWD, filepath.Join(root, c27Paths[pi]), ts, unix.AT_SYMLINK_NOFOLLOW); err != nil {
+					fw.Abort("utimensat: %v", err)
+				}
+			}
 		}
 	}
 	dIsDir := W[1] != 't'
@@ -228,7 +236,7 @@ func (e *c27Env) build(v []int, root string, viaGit bool) *fw.Git {
 		fw.Abort("ref: %v", err)
 	}
 	os.Remove(filepath.Join(root, ".git", "ORIG_HEAD"))
-	if racy {
+	if racy && !subsec {
 		tt := time.Unix(hOldTime, 0)
 		if err := os.Chtimes(filepath.Join(root, ".git", "index"), tt, tt); err != nil {
 			fw.Abort("chtimes index: %v", err)
@@ -265,10 +273,28 @@ func (e *c27Env) run(v []int) (gitM, goM map[string]string, goErr string) {
 	root := e.c.TempDir("c27")
 	defer os.RemoveAll(root)
 	g := e.build(v, root, false)
-	gitM = c27GitStatus(g)
+	subsec := v[9] == 2
+	if !subsec {
+		gitM = c27GitStatus(g)
+	}
 
 	// go-git
 	goM = map[string]string{}
+	defer func() {
+		if subsec {
+			// The installed git compares whole seconds only (no USE_NSEC), so in
+			// this one mode its cached stat data would hide the edit from git
+			// itself (even after update-index --really-refresh). The reference
+			// is git after the files' mtimes have moved to another second, which
+			// makes it re-read them; go-git ran first, on the untouched state.
+			for _, p := range c27Paths {
+				if fi, err := os.Lstat(filepath.Join(root, p)); err == nil && fi.Mode().IsRegular() {
+					hSetMtime(filepath.Join(root, p), hOldTime+77)
+				}
+			}
+			gitM = c27GitStatus(g)
+		}
+	}()
 	func() {
 		defer func() {
 			if rec := recover(); rec != nil {
@@ -369,7 +395,7 @@ func runC27(c *fw.Ctx) {
 	}
 	// configurations: star (each dimension alone + one all-on) for every
 	// state; the full product for the reduced states in thorough.
-	star := [][4]int{{0, 0, 0, 0}, {1, 0, 0, 0}, {0, 1, 0, 0}, {0, 2, 0, 0}, {0, 0, 1, 0}, {0, 0, 2, 0}, {0, 0, 3, 0}, {0, 0, 0, 1}, {0, 1, 0, 1}, {1, 1, 1, 1}}
+	star := [][4]int{{0, 0, 0, 0}, {1, 0, 0, 0}, {0, 1, 0, 0}, {0, 2, 0, 0}, {0, 0, 1, 0}, {0, 0, 2, 0}, {0, 0, 3, 0}, {0, 0, 0, 1}, {0, 1, 0, 1}, {1, 1, 1, 1}, {0, 0, 0, 2}}
 	if c.Thorough() {
 		star = append(star, [4]int{0, 2, 0, 1}, [4]int{1, 0, 0, 1})
 	}
@@ -417,7 +443,7 @@ func runC27(c *fw.Ctx) {
 	c.Bound("configs_per_state", len(star))
 	c.Bound("cases", len(cases))
 	c.Bound("extras", "always present: empty dir e/, untracked u/v, z.ign, d/z.ign")
-	c.SetRule("per path a (HEAD,index,worktree) triple over kinds -=absent 1/2=contents x=exec l=symlink i=intent-to-add t=type swap (2 stands for the CRLF twin of 1 when autocrlf is on); quick: full triple space of one path with the other path absent (both ways) + all pairs of 6 representative triples, thorough: full x 10 representatives (both ways) + full x full; x configurations (core.fileMode, core.autocrlf, ignore file placement, mtime old|same-second-as-index) as a star (each alone + autocrlf with racy + all on; thorough: the full x full states under the base configuration only, and the full 48-configuration product on the pairs of representative triples); states built with real git (reset/add -N on a stamped template); Worktree.Status compared per path with git status --porcelain=v1 -z --untracked-files=all --no-renames; non-trivial = git reports at least one path besides the fixed extras; distinct counts (config, multiset of XY codes of a and d/b)")
+	c.SetRule("per path a (HEAD,index,worktree) triple over kinds -=absent 1/2=contents x=exec l=symlink i=intent-to-add t=type swap (2 stands for the CRLF twin of 1 when autocrlf is on); quick: full triple space of one path with the other path absent (both ways) + all pairs of 6 representative triples, thorough: full x 10 representatives (both ways) + full x full; x configurations (core.fileMode, core.autocrlf, ignore file placement, mtime old|same-second-as-index|same second with other nanoseconds under a newer index) as a star (each alone + autocrlf with racy + all on; thorough: the full x full states under the base configuration only, and the full 48-configuration product on the pairs of representative triples); states built with real git (reset/add -N on a stamped template); Worktree.Status compared per path with git status --porcelain=v1 -z --untracked-files=all --no-renames; non-trivial = git reports at least one path besides the fixed extras; distinct counts (config, multiset of XY codes of a and d/b)")
 	c.Assume("git 2.39.5 status is the reference; git's type-change code T is read as M (go-git's StatusCode has no T); rename pairing is off (--no-renames); states with stat data matching a same-size different-content file are only produced with index mtime == file mtime (the racy case), never with an older file (that state needs utimes forgery)")
 
 	var fails hFailures
